@@ -390,6 +390,98 @@ theorem writeDb_readRaw (now : Nat) (q : DbReq) (src dst d : Files)
   intro rec _
   simp [cells_of_raw]
 
+
+/-! ## the relations file (`_format_schema` / `_parse_schema`, `write_schema` / `read_schema`) -/
+
+/-- schema text round trip at line level: for every schema whose relation names start with a word
+character and contain no white space, whose field names, datatypes and flags are non-empty tokens
+free of white space and `#`, where no datatype, flag or comment ends in a colon and comments are
+non-empty without leading or trailing white space, parsing the formatted schema gives the schema
+back — names, datatypes, flags AND comments, tables and fields in order. -/
+theorem parse_format_schema (ss : SSchema) (h : ∀ t ∈ ss, TableOk t) (hnd : (ss.map (·.1)).Nodup) :
+    parseSchema (formatSchema ss) = .ok ss := by
+  obtain ⟨st', h1, h2⟩ := parseLines_schema {} ss h hnd (by simp [PState.tables])
+  have h3 : st'.tables = ss := by rw [h2]; simp [PState.tables]
+  simp only [parseSchema, h1, h3]
+
+/-- the stretch statement: `parseSchema (formatSchema s) = ok s` for schemas over identifiers (no
+white space, `#`, `:` in relation and field names; `:key`-like datatypes and flags; optional
+comments), one-character relation names included. -/
+theorem parse_format_schema_ident (ss : SSchema) (h : ∀ t ∈ ss, IdentTable t)
+    (hnd : (ss.map (·.1)).Nodup) : parseSchema (formatSchema ss) = .ok ss :=
+  parse_format_schema ss (fun t ht => TableOk_of_ident t (h t ht)) hnd
+
+/-- lifted: "a database written by write_database / initialize_database can be opened with the
+same schema" — the `relations` file they leave behind (whatever happened to the relation files)
+is read back by `Database(path)` / `read_schema` as exactly the target schema. -/
+theorem written_database_opens (target : SSchema) (h : ∀ t ∈ target, IdentTable t)
+    (hnd : (target.map (·.1)).Nodup) : openSchema (writeSchemaFile target) = .ok target :=
+  parse_format_schema_ident target h hnd
+
+/-- F27 regression (fixed by 464c039), checked on the model: relations named by one character, in
+first and in later position, with flags, a padded and an unpadded comment. -/
+theorem one_char_relation_roundtrip :
+    (parseSchema (formatSchema
+      [("a".toList, [⟨"x".toList, ":integer".toList, [":key".toList], some "the id".toList⟩]),
+       ("q".toList, [⟨"ffffffffffffffffffffffffffffffffffffffff".toList, ":string".toList, [], some "# tight".toList⟩,
+                     ⟨"y".toList, ":date".toList, [], none⟩]),
+       ("_".toList, [])])).toOption
+    = some
+      [("a".toList, [⟨"x".toList, ":integer".toList, [":key".toList], some "the id".toList⟩]),
+       ("q".toList, [⟨"ffffffffffffffffffffffffffffffffffffffff".toList, ":string".toList, [], some "# tight".toList⟩,
+                     ⟨"y".toList, ":date".toList, [], none⟩]),
+       ("_".toList, [])] := by decide
+
+/-- outside the region the round trip really fails (so the hypotheses are not decoration): a comment
+that ends in a colon turns its field line into a table line. -/
+theorem comment_colon_breaks_roundtrip :
+    (parseSchema (formatSchema [("t".toList, [⟨"x".toList, ":string".toList, [], some "see:".toList⟩])])).toOption
+      ≠ some [("t".toList, [⟨"x".toList, ":string".toList, [], some "see:".toList⟩])] := by decide
+
+/-! ## what is on disk: carriage returns, NUL and friends -/
+
+/-- the file iterator (`newline='\n'`, plain and gzip alike) splits the stored text at `\n` only:
+lines free of `\n` come back exactly, whatever else they contain (`\r`, `\r\n`-less CR, NUL, VT,
+FF, NEL, U+2028 …). -/
+theorem text_roundtrip (ls : List Line) (h : ∀ l ∈ ls, '\n' ∉ l) : splitLines (toText ls) = ls :=
+  splitLines_toText ls h
+
+/-- appending in `ab` mode is concatenation of the text, i.e. of the line lists. -/
+theorem append_is_concatenation (old new : List Line) : toText (old ++ new) = toText old ++ toText new :=
+  toText_append old new
+
+open Verif.C08 (Val) in
+/-- every staged line is free of `\n` (a newline in a value is stored as the two characters `\n`),
+so the text layer never merges or splits records. -/
+theorem staged_lines_no_newline (fields : List Field) (recs : List (List Val)) (lines : List Line)
+    (h : stage fields recs = .ok lines) : ∀ l ∈ lines, '\n' ∉ l :=
+  stage_no_nl fields recs lines h
+
+open Verif.C08 (Val) in
+/-- a string value made of ANY characters — `\r`, `\r\n`, `\n`, NUL, a backslash followed by `n` —
+written as the only record, plain or compressed, reads back as exactly that string. -/
+theorem string_value_survives (now : Nat) (r r' : Rel) (f : Field) (s : List Char) (hs : s ≠ []) (gz : Bool)
+    (hw : write now r ⟨false, gz, stage [f] [[Val.str s]]⟩ = .ok r') :
+    readRaw r' = .ok [[some s]] := by
+  cases hst : stage [f] [[Val.str s]] with
+  | error e => simp [write, hst] at hw
+  | ok lines =>
+    rw [hst] at hw
+    have hr := write_read now r r' _ hw
+    simp only [linesOf, Bool.false_eq_true, if_false, List.nil_append] at hr
+    rw [readRaw_staged [f] [[Val.str s]] lines r' hst hr]
+    cases s with
+    | nil => exact absurd rfl hs
+    | cons c cs => simp [cellsOf, fmtField, C08.format, C08.normEmpty]
+
+/-- concrete instance through both physical forms: CR, CR LF, LF, NUL, backslash-n in one value. -/
+theorem cr_nul_concrete :
+    ((readRaw { tx := some ⟨[['1', '@', 'a', '\r', '\\', 'n', '\r', '\\', 'n', Char.ofNat 0, '\\', '\\', 'n']], 1⟩, gz := none }).toOption
+      = some [[some ['1'], some ['a', '\r', '\n', '\r', '\n', Char.ofNat 0, '\\', 'n']]])
+    ∧ ((readRaw { tx := none, gz := some ⟨[['1', '@', 'a', '\r', '\\', 'n', '\r', '\\', 'n', Char.ofNat 0, '\\', '\\', 'n']], 1⟩ }).toOption
+      = some [[some ['1'], some ['a', '\r', '\n', '\r', '\n', Char.ofNat 0, '\\', 'n']]]) := by
+  decide
+
 /-- the hypotheses above are satisfiable and the statement is not vacuous: a stale newer `.gz`
 next to a plain file, then overwrite + append + refused gzip-append. -/
 example :
